@@ -4,6 +4,7 @@ from . import c12 as _c12
 from . import c01_kani as _c01k
 from . import c06_roundtrip as _c06r
 from . import c11_decoys as _c11d
+from . import c14_directives as _c14d
 
 TECH = ("contract-based deductive verification: Verus discharges contracts woven into the real functions extracted from "
         "/repo on every run (units: %s); vacuity canary copies; failures mapped to the property by contract labels")
@@ -74,7 +75,9 @@ PROPS = {
               "whether a comment *is* on the nearest earlier line is therefore relative to std's line splitting.",
               "the scan is proved equal to directive_spec (skip the statement's own line, skip blank lines, the first non-blank line decides: no comment => false; "
               "a capture group lower-cased and trimmed equal to the name => true); ignore is evaluated at the macro-name start and removes the entry; "
-              "no-kvp at the argument start and selects the message branch (find's result == tree_entries)"),
+              "no-kvp at the argument start and selects the message branch (find's result == tree_entries). Bounded stand-in for the assumed std / regex "
+              "semantics: 25 directive placements x (ignore in both styles, no-kvp structured) through the release binary, expectation from the property text",
+              extra=[("placements_bounded", _c14d.run)]),
     "C15": _p(["context", "main", "generate", "finder"], COMMON_TRUST + " walkdir's traversal and symlink policy; std::path join/parent/extension semantics.",
               "discovered set == in_scope(walk entries, extensions) exactly (regular file, UTF-8, extension text equal); only those paths are rename targets; "
               "relative source_dir joined onto parent(--config); lock path = join(config dir, Breadlog.lock)"),
